@@ -144,11 +144,11 @@ static Bytes compose(const std::string & f0, const std::string & f1, const std::
     return s;
 }
 
-static Bytes unknown_object(uint32_t type, uint32_t size, bool fake_sig) {
+static Bytes unknown_object(uint32_t type, uint32_t size, bool fake_sig, uint16_t hsize = 16, uint16_t hver = 1) {
     Bytes b;
     blfasm::putv<uint32_t>(b, 0x4A424F4C);
-    blfasm::putv<uint16_t>(b, 16);
-    blfasm::putv<uint16_t>(b, 1);
+    blfasm::putv<uint16_t>(b, hsize);
+    blfasm::putv<uint16_t>(b, hver);
     blfasm::putv<uint32_t>(b, size);
     blfasm::putv<uint32_t>(b, type);
     size_t body = size > 16 ? size - 16 : 0;
@@ -202,20 +202,30 @@ int main(int argc, char ** argv) {
             });
         } else if (mode == "unknown") {
             std::vector<uint32_t> types = {0, 26, 27, 28, 52, 53, 108, 116, 117, 132, 133, 200, 255, 256, 0xffff, 0x7fffffff, 0x80000000u, 0xffffffffu};
-            std::vector<uint32_t> sizes = {0, 1, 15, 16, 17, 18, 19, 20, 32, 33, 48, 4096};
+            std::vector<uint32_t> sizes = {0, 1, 15};
+            for (uint32_t z = 16; z <= 44; z++) sizes.push_back(z);
+            sizes.push_back(48);
+            sizes.push_back(4096);
+            /* the header-size / header-version fields an unknown object declares: real objects carry 32 (version 1) or 40
+             * (version 2); the skip goes by the declared object size alone */
+            struct HK { uint16_t hs, hv; };
+            std::vector<HK> hks = {{16, 1}, {32, 1}, {40, 2}, {0, 0}, {17, 1}, {0xffff, 0xffff}};
+            bool allhk = args.num("allhk", 0) != 0;
             for (uint32_t t : types)
+              for (size_t hi = 0; hi < hks.size(); hi++) {
+                if (!allhk && hi >= 2 && !(t == 0 || t == 132 || t == 0xffffffffu)) continue;
                 for (uint32_t sz : sizes)
                     for (int fake = 0; fake < 2; fake++)
                         for (int where = 0; where < 4; where++) {
                             if ((ord++ % nshards) != shard) continue;
-                            Bytes u = unknown_object(t, sz, fake != 0);
+                            Bytes u = unknown_object(t, sz, fake != 0, hks[hi].hs, hks[hi].hv);
                             if (sz < 16) u.resize(16);
                             std::string us(u.begin(), u.end());
                             std::string e;
                             Bytes s = compose(where == 0 ? us : e, where == 1 ? us : e, where == 2 ? us : e, where == 3 ? us : e);
-                            std::string lab = "unknown type " + std::to_string(t) + " declared size " + std::to_string(sz) + (fake ? " containing the signature bytes" : "") + " at position " + std::to_string(where);
+                            std::string lab = "unknown type " + std::to_string(t) + " header " + std::to_string(hks[hi].hs) + "/v" + std::to_string(hks[hi].hv) + " declared size " + std::to_string(sz) + (fake ? " containing the signature bytes" : "") + " at position " + std::to_string(where);
                             check(s, {}, lab, "unknown");
-                            if (sz <= 33)
+                            if (sz <= 44)
                                 for (size_t k = 1; k < s.size(); k += 1) check(s, {k}, lab + ", split at " + std::to_string(k), "unknown-split");
                             /* odd sizes followed by padding up to 4-byte alignment, as writers of padded types do */
                             if (sz % 4) {
@@ -224,6 +234,7 @@ int main(int argc, char ** argv) {
                                 check(s2, {}, lab + " + padding", "unknown-padded");
                             }
                         }
+              }
             samples.push_back("unknown type 132 declared size 33 containing the signature bytes at position 1");
         } else if (mode == "session") {
             /* complete File sessions (three threads, default schedule) over assembled files */
